@@ -180,6 +180,10 @@ def bounds(ctx):
         hd = holding(a)
         nosplice = [s for s in a.events() if s['ev'] == 'store' and canon(s['lhs']) == 'size'
                     and any(x[0] == '==' and x[1] == 'splice_available' and x[2] == '0' for x in hd.get((s['_b'], s['_i']), frozenset()))]
+        if prog.global_for('iv_fd_pump.c', 'splice_available') is None:
+            # configuration without splice: the flag is the constant 0 and the other arm is not compiled in
+            reach = a.reachable_blocks()
+            nosplice = [s for s in a.events() if s['ev'] == 'store' and canon(s['lhs']) == 'size' and s['_b'] in reach]
         oka = ok and bool(nosplice) and all(strip(s['rhs']).get('k') == 'int' and strip(s['rhs'])['v'] >= uoff + size for s in nosplice)
         ctx.ob('R-C17d', 'alloc>=offset+BUF_SIZE', oka, loc=a.loc,
                detail='read/write mode allocates %s bytes >= %d (offset of the buffer) + %s' % ([strip(s['rhs']).get('v') for s in nosplice], uoff, size), fn=a.q)
